@@ -356,6 +356,15 @@ def r4(ctx, p, lf):
             continue
         d = eb.at(sb).op(t["discr"])
         if d[0] == "call" and d[1].endswith("str>::is_empty"):
+            # a blank *line*: the emptiness test is on the whole line, or on its first token after
+            # the split found no second token (then the first token is the whole line).  An empty
+            # first token alone is a line that starts with a space - malformed, not blank.
+            arg_s = show(d[2][0]) if d[2] else ""
+            on_token = "SplitN" in arg_s or "Split<" in arg_s or "::split" in arg_s
+            no_second = any(g[0] == "none" and ("SplitN" in show(g[1]) or "Split<" in show(g[1])) for g in paths.guards(lf, sb, eb))
+            if on_token and not no_second:
+                ctx.fail("C17-R4", lf.path, "blank-line test", "a line is skipped when its first token is empty, whether or not more tokens follow: a line that merely starts with a space is dropped without an error instead of being reported", cm.loc_of(t["span"]))
+                continue
             for v, tg in arms:
                 if v is None or v == 1:
                     empties.append((sb, tg))
